@@ -92,14 +92,50 @@ func (v val) js() string {
 	}
 }
 
-type arg struct {
-	k byte // 'U' url, 'H' host, 'L' literal
-	v val
+// piece = one operand of a string the script builds at run time (Model: Piece)
+type piece struct {
+	k byte   // 'l' literal, 'U' url, 'H' host, 'P' host.split(".")[i]
+	s string // literal text
+	i int
 }
 
-func aURL() arg      { return arg{k: 'U'} }
-func aHost() arg     { return arg{k: 'H'} }
-func aLit(v val) arg { return arg{k: 'L', v: v} }
+func pLit(s string) piece { return piece{k: 'l', s: s} }
+func pURL() piece         { return piece{k: 'U'} }
+func pHost() piece        { return piece{k: 'H'} }
+func pLabel(i int) piece  { return piece{k: 'P', i: i} }
+
+func (p piece) js() string {
+	switch p.k {
+	case 'l':
+		return jsString(p.s)
+	case 'U':
+		return "url"
+	case 'H':
+		return "host"
+	}
+	return "host.split(\".\")[" + strconv.Itoa(p.i) + "]"
+}
+
+func (p piece) wire() string {
+	switch p.k {
+	case 'l':
+		return "l" + core.HexS(p.s)
+	case 'P':
+		return "P" + strconv.Itoa(p.i)
+	}
+	return string(p.k)
+}
+
+type arg struct {
+	k  byte // 'U' url, 'H' host, 'L' literal, 'D' built at run time: "" + piece + piece …
+	v  val
+	ps []piece
+}
+
+func aURL() arg            { return arg{k: 'U'} }
+func aHost() arg           { return arg{k: 'H'} }
+func aLit(v val) arg       { return arg{k: 'L', v: v} }
+func aDyn(ps ...piece) arg { return arg{k: 'D', ps: ps} }
 
 func (a arg) js() string {
 	switch a.k {
@@ -107,13 +143,26 @@ func (a arg) js() string {
 		return "url"
 	case 'H':
 		return "host"
+	case 'D':
+		out := []string{"\"\""}
+		for _, p := range a.ps {
+			out = append(out, p.js())
+		}
+		return "(" + strings.Join(out, " + ") + ")"
 	}
 	return a.v.js()
 }
 
 func (a arg) wire() string {
-	if a.k == 'L' {
+	switch a.k {
+	case 'L':
 		return a.v.wire()
+	case 'D':
+		out := make([]string, len(a.ps))
+		for i, p := range a.ps {
+			out[i] = p.wire()
+		}
+		return "D" + strings.Join(out, "+")
 	}
 	return string(a.k)
 }
@@ -238,27 +287,125 @@ func (t *tree) depth() int {
 	return 1 + max(t.t.depth(), t.e.depth())
 }
 
+// declForm = a way of declaring an entry point (Model: DeclForm, same names).
+type declForm struct {
+	name    string
+	binding byte // 'P' property of the global object, 'L' global lexical binding, 'N' no global binding
+	// decl prints the declaration of name n with right-hand side rhs (a function expression, an arrow function or
+	// some other value); body is used instead by the forms that need a function declaration
+	decl func(n, rhs string) string
+	rhs  byte // 'f' function expression, 'n' named function expression, 'a' arrow function, 'd' function declaration
+	// for a value that is not a function: the form that keeps the binding kind but takes any right-hand side
+	valueForm string
+}
+
+func stmtDecl(pre, post string) func(n, rhs string) string {
+	return func(n, rhs string) string { return pre + n + " = " + rhs + ";" + post + "\n" }
+}
+
+var declForms = []declForm{
+	{name: "funDecl", binding: 'P', rhs: 'd', valueForm: "varFun"},
+	{name: "varFun", binding: 'P', rhs: 'f', decl: stmtDecl("var ", "")},
+	{name: "varNamedFun", binding: 'P', rhs: 'n', decl: stmtDecl("var ", ""), valueForm: "varFun"},
+	{name: "varArrow", binding: 'P', rhs: 'a', decl: stmtDecl("var ", ""), valueForm: "varFun"},
+	{name: "assign", binding: 'P', rhs: 'f', decl: stmtDecl("", "")},
+	{name: "thisAssign", binding: 'P', rhs: 'f', decl: stmtDecl("this.", "")},
+	{name: "defineProp", binding: 'P', rhs: 'f', decl: func(n, rhs string) string {
+		return "Object.defineProperty(this, \"" + n + "\", {value: " + rhs + ", writable: true, enumerable: true, configurable: true});\n"
+	}},
+	{name: "blockVar", binding: 'P', rhs: 'f', decl: stmtDecl("if (true) {\n  var ", "\n}")},
+	{name: "blockAssign", binding: 'P', rhs: 'f', decl: stmtDecl("{\n  ", "\n}")},
+	{name: "iifeAssign", binding: 'P', rhs: 'f', decl: stmtDecl("(function () {\n  ", "\n})();")},
+	{name: "iifeThis", binding: 'P', rhs: 'f', decl: stmtDecl("(function () {\n  this.", "\n})();")},
+	{name: "iifeGlobalArg", binding: 'P', rhs: 'f', decl: stmtDecl("(function (g) {\n  g.", "\n})(this);")},
+	{name: "evalVar", binding: 'P', rhs: 'f', decl: func(n, rhs string) string {
+		return "eval(" + jsString("var "+n+" = "+rhs+";") + ");\n"
+	}},
+	{name: "constFun", binding: 'L', rhs: 'f', decl: stmtDecl("const ", "")},
+	{name: "letFun", binding: 'L', rhs: 'f', decl: stmtDecl("let ", "")},
+	{name: "constArrow", binding: 'L', rhs: 'a', decl: stmtDecl("const ", ""), valueForm: "constFun"},
+	{name: "letArrow", binding: 'L', rhs: 'a', decl: stmtDecl("let ", ""), valueForm: "letFun"},
+	{name: "letLater", binding: 'L', rhs: 'f', decl: func(n, rhs string) string { return "let " + n + ";\n" + n + " = " + rhs + ";\n" }},
+	{name: "blockLet", binding: 'N', rhs: 'f', decl: stmtDecl("{\n  let ", "\n}")},
+	{name: "blockConst", binding: 'N', rhs: 'f', decl: stmtDecl("{\n  const ", "\n}")},
+	{name: "iifeLocalFun", binding: 'N', rhs: 'd', valueForm: "iifeLocalVar"},
+	{name: "iifeLocalVar", binding: 'N', rhs: 'f', decl: stmtDecl("(function () {\n  var ", "\n})();")},
+	{name: "evalLet", binding: 'N', rhs: 'f', decl: func(n, rhs string) string {
+		return "eval(" + jsString("let "+n+" = "+rhs+";") + ");\n"
+	}},
+}
+
+func formByName(name string) declForm {
+	if name == "" {
+		name = "funDecl"
+	}
+	for _, f := range declForms {
+		if f.name == name {
+			return f
+		}
+	}
+	core.Fatalf("C14: unknown declaration form %q", name)
+	return declForm{}
+}
+
+// formsWith: the names of the forms with one of the given binding kinds
+func formsWith(kinds string) []string {
+	var out []string
+	for _, f := range declForms {
+		if strings.IndexByte(kinds, f.binding) >= 0 {
+			out = append(out, f.name)
+		}
+	}
+	return out
+}
+
+// notFunctionValues: right-hand sides `goja.AssertFunction` refuses
+var notFunctionValues = []string{"5", "\"DIRECT\"", "{}", "null", "undefined", "true", "[]", "/re/"}
+
 // entry = one of the two global names a PAC script may define.
 type entry struct {
-	k byte // '-' absent, 'x' defined but not a function, 'f' function
-	t *tree
+	k    byte // '-' absent, 'x' defined but not a function, 'f' function
+	t    *tree
+	form string // name of a declForm ("" = funDecl)
+	xv   int    // which value that is not a function (k == 'x')
 }
 
 func (e entry) wire() string {
+	w := string(e.k)
 	if e.k == 'f' {
-		return e.t.wire()
+		w = e.t.wire()
 	}
-	return string(e.k)
+	if e.k != '-' && e.form != "" && e.form != "funDecl" {
+		return e.form + ":" + w
+	}
+	return w
 }
 
 func (e entry) js(name string) string {
+	f := formByName(e.form)
 	switch e.k {
 	case '-':
 		return ""
 	case 'x':
-		return "var " + name + " = 5;\n"
+		if f.valueForm != "" {
+			f = formByName(f.valueForm)
+		}
+		return f.decl(name, notFunctionValues[e.xv%len(notFunctionValues)])
 	}
-	return "function " + name + "(url, host) {\n" + e.t.js("  ") + "}\n"
+	params := "(url, host)"
+	body := " {\n" + e.t.js("  ") + "}"
+	switch f.rhs {
+	case 'd':
+		if f.name == "iifeLocalFun" {
+			return "(function () {\n  function " + name + params + body + "\n})();\n"
+		}
+		return "function " + name + params + body + "\n"
+	case 'n':
+		return f.decl(name, "function entryImpl"+params+body)
+	case 'a':
+		return f.decl(name, params+" =>"+body)
+	}
+	return f.decl(name, "function "+params+body)
 }
 
 func scriptJS(fn, fnEx entry) string {
